@@ -405,10 +405,56 @@ const maxSentence = 8
 
 var junkTokens = []string{"-", "--", "", "-z", "--zzz", "-a=", "x", "--alpha", "-ab", "--alpha=", "-a", "9", "-9"}
 
+// foldAdjacent merges a bare short flag with the short-option token that follows it (`-a -b` -> `-ab`,
+// `-a -svalue` -> `-asvalue`), each eligible pair with probability 1/2. Occurrence records are dropped.
+func (s *sentence) foldAdjacent(t *Tape, ds *DeclSet) {
+	shortKind := map[byte]ValKind{}
+	for _, d := range ds.Opts {
+		if sh, _ := optNames(d); sh != "" {
+			shortKind[sh[1]] = d.Kind
+		}
+	}
+	isShortTok := func(tok string) bool {
+		if len(tok) < 2 || tok[0] != '-' || tok[1] == '-' {
+			return false
+		}
+		_, ok := shortKind[tok[1]]
+		return ok && (len(tok) == 2 || tok[2] != '=')
+	}
+	out := []string{}
+	merged := false
+	for i := 0; i < len(s.toks); i++ {
+		tok := s.toks[i]
+		for len(tok) >= 2 && isShortTok(tok) && i+1 < len(s.toks) {
+			// every letter of tok so far must be a bare bool flag
+			allBool := true
+			for k := 1; k < len(tok); k++ {
+				if kd, ok := shortKind[tok[k]]; !ok || kd != KBool {
+					allBool = false
+				}
+			}
+			if !allBool || !isShortTok(s.toks[i+1]) || t.Draw(2) == 0 {
+				break
+			}
+			tok += s.toks[i+1][1:]
+			i++
+			merged = true
+		}
+		out = append(out, tok)
+	}
+	if merged {
+		s.toks = out
+		s.occs = nil
+	}
+}
+
 // genSentence walks the spec, then sometimes mutates the result.
 func genSentence(t *Tape, spec *specNode, ds *DeclSet, mutateProb int) *sentence {
 	s := &sentence{budget: 40}
 	s.walk(t, spec, ds)
+	if mutateProb >= 0 && t.Draw(3) == 0 {
+		s.foldAdjacent(t, ds)
+	}
 	if len(s.toks) > maxSentence {
 		s.toks = s.toks[:maxSentence]
 		s.occs = nil
